@@ -294,6 +294,21 @@ func (r *R) Write() {
 	}
 }
 
+// Current records the case about to be executed in $VERIF_OUT.current, so that the driver can turn a
+// crash of the whole worker process (a panic in a goroutine of the code under test, a fatal error)
+// into a replayable violation. Use only where cases are coarse enough for a file write per case.
+func Current(c any) {
+	p := os.Getenv("VERIF_OUT")
+	if p == "" {
+		return
+	}
+	b, err := json.Marshal(c)
+	if err != nil {
+		return
+	}
+	os.WriteFile(p+".current", b, 0o644)
+}
+
 // Short renders a value compactly for messages.
 func Short(v any) string {
 	b, err := json.Marshal(v)
